@@ -424,19 +424,27 @@ class Reader:
                     width = max(width - 1, 0)
             return nibbles
 
-        lmod, lsign, loffset, lwidth, lbase = self._parse_modify(lhs)
-        rmod, rsign, roffset, rwidth, rbase = self._parse_modify(rhs)
+        modifier = re.compile(r"\$(\{[+-]?\d+(,\d+(,.)?)?\})?")
+
+        def _substitute(side: str, counter: int) -> str:
+            """Replace every $ in side, each with its own modifiers (if any)."""
+
+            def one(match):
+                _, sign, offset, width, base = self._parse_modify(match.group(0))
+                index = _calculate_index(counter, sign, offset)
+                return _format_index(index, base, width)
+
+            return modifier.sub(one, side)
+
+        # refuse invalid modifiers even when the range is empty
+        for side in (lhs, rhs):
+            for match in modifier.finditer(side):
+                self._parse_modify(match.group(0))
         for i in range(start, stop + 1, step):
             # +1 because bind is inclusive and python is exclusive
 
-            lindex = _calculate_index(i, lsign, loffset)
-            rindex = _calculate_index(i, rsign, roffset)
-
-            lzfindex = _format_index(lindex, lbase, lwidth)
-            rzfindex = _format_index(rindex, rbase, rwidth)
-
-            name = lhs.replace(f"${lmod}", lzfindex)
-            rdata = rhs.replace(f"${rmod}", rzfindex)
+            name = _substitute(lhs, i)
+            rdata = _substitute(rhs, i)
 
             self.last_name = dns.name.from_text(
                 name, self.current_origin, self.tok.idna_codec
